@@ -163,7 +163,7 @@ def apply_event(w, ev, rng=None):
     # before it looks at the network again, so any other event first lets it finish.
     if getattr(w, 'lazy', False) and not (name in ('STOP', 'START', 'SETTLE') or name in REST_SENDS or name in QUEUED):
         w.lazy = False
-        reactor.settle(ch)
+        reactor.run_pass(ch)        # (what that pass schedules with callLater(0) runs after the network event)
     w.lazy = is_lazy(ev)
     ok = True
     if name == 'ACCEPT':
